@@ -3,7 +3,8 @@
    GENERATED from typhon/physics/atmosphere.py (coq/gen/atmosphere.v, regenerated on every run). *)
 From Coq Require Import Reals List.
 From TyphonGen Require Import atmosphere.
-From Typhon Require Import Model.C14_column Model.C14_rint Proofs.C14_trapz Proofs.C14_rint Proofs.C14_hydro.
+From Typhon Require Import Model.C14_column Model.C14_rint Model.C14_forms Proofs.C14_trapz Proofs.C14_rint Proofs.C14_hydro
+  Proofs.C14_forms.
 Import ListNotations.
 Open Scope R_scope.
 
@@ -58,11 +59,102 @@ Proof. exact iwv_hydro_nonneg. Qed.
 Theorem iwv_general_nonnegative : forall vmr p T z, List.Forall (fun x => 0 <= x) vmr -> List.Forall (fun x => 0 <= x) p ->
   List.Forall (fun x => 0 < x) T -> nondecreasing z -> 0 <= iwv_general vmr p T z.
 Proof. exact iwv_general_nonneg. Qed.
-(* The agreement of the hydrostatic form (vmr, p) and the general form (vmr, p, T, z) when z is the hydrostatic height of
-   the moist column is a CONVERGENCE statement (both are quadratures of the same integral, equal only in the limit of a
-   refined grid).  It is NOT proved here; tools/props/c14.py checks it numerically on refined grids.
-   Theorem iwv_forms_converge : for smooth profiles x(p), T(p) and z(p) = int_p^p0 R_moist T / (g p') dp',
-     | iwv_hydro (x on grid_n) (grid_n) - iwv_general (x, grid_n, T, z on grid_n) | -> 0  as the grid is refined. *)
+(* The two forms side by side.  Both are quadratures of the same integral and differ on every finite grid.  The general
+   form (vmr, p, T, z) is taken over z = moist_height vmr p T, the hydrostatic height of the MOIST column as the code's own
+   pressure2height gives it when called with the virtual temperature (pressure2height works with the density of dry air,
+   `density(p, T)` with the default R; at T_v = T R_v / (R_d ((1 - x) Md / Mw + x)) that is the density of the moist air,
+   and the vapour density of the general form is the specific humidity of the hydrostatic form times it). *)
+Theorem moist_height_is_pressure2height_at_virtual_temperature : forall vmr p T,
+  moist_height vmr p T = pressure2height p (zip2 virtual_temperature vmr T).
+Proof. reflexivity. Qed.
+Theorem virtual_temperature_is_the_textbook_one : forall x T, 0 <= x <= 1 ->
+  let c := c_gas_constant_water_vapor * c_molar_mass_water / (c_gas_constant_dry_air * c_molar_mass_dry_air) in
+  virtual_temperature x T = c * (T / (1 - x * (1 - c_molar_mass_water / c_molar_mass_dry_air))) /\ Rabs (c - 1) <= 2 / 10 ^ 16.
+Proof. exact virtual_temperature_textbook. Qed.
+Theorem vapour_density_is_q_times_moist_density : forall x p T, 0 <= x <= 1 -> 0 < T ->
+  x * density p T c_gas_constant_water_vapor =
+  vmr2specific_humidity x * density p (virtual_temperature x T) c_gas_constant_dry_air.
+Proof. exact vapour_density. Qed.
+(* (1) the exact discrete identity, layer by layer: general form - hydrostatic form = the sum over the layers of
+       dp / (2 g) * (q0 - q1) * (rho0 - rho1) / (rho0 + rho1)        (layer_defect; rho the density of the moist air) *)
+Theorem iwv_forms_layer_identity : forall vmr p T, length vmr = length p -> length T = length p ->
+  List.Forall (fun x => 0 <= x <= 1) vmr -> List.Forall (fun x => 0 < x) p -> List.Forall (fun x => 0 < x) T ->
+  iwv_general vmr p T (moist_height vmr p T) - iwv_hydro vmr p = rsum (layer_map layer_defect vmr p T).
+Proof. exact forms_identity. Qed.
+(* each layer defect is at most the layer's relative contrast
+       (r - 1) + (Md / Mw - 1) |x0 - x1| + |T0 - T1| / T0,     r = p0 / p1   (layer_contrast: pressure, composition, temperature step)
+   times the layer's contribution to the hydrostatic form, and at most contrast * (Md / Mw) |x0 - x1| * dp / (2 g) *)
+Theorem iwv_layer_defect_bound : forall x0 p0 T0 x1 p1 T1, 0 <= x0 <= 1 -> 0 <= x1 <= 1 -> 0 < p1 -> p1 <= p0 -> 0 < T0 -> 0 < T1 ->
+  Rabs (layer_defect x0 p0 T0 x1 p1 T1) <= layer_contrast x0 p0 T0 x1 p1 T1 * layer_hydro x0 p0 T0 x1 p1 T1 /\
+  Rabs (layer_defect x0 p0 T0 x1 p1 T1) <=
+    layer_contrast x0 p0 T0 x1 p1 T1 * (c_molar_mass_dry_air / c_molar_mass_water * Rabs (x0 - x1)) * ((p0 - p1) / (2 * c_earth_standard_gravity)).
+Proof. exact layer_defect_bounds. Qed.
+(* (2) hence, when every layer has contrast <= e, the forms differ by at most e times the hydrostatic form *)
+Theorem iwv_forms_close : forall e vmr p T, length vmr = length p -> length T = length p ->
+  List.Forall (fun x => 0 <= x <= 1) vmr -> List.Forall (fun x => 0 < x) p -> decreasing p -> List.Forall (fun x => 0 < x) T ->
+  layer_all (fun x0 p0 T0 x1 p1 T1 => layer_contrast x0 p0 T0 x1 p1 T1 <= e) vmr p T ->
+  Rabs (iwv_general vmr p T (moist_height vmr p T) - iwv_hydro vmr p) <= e * iwv_hydro vmr p.
+Proof. exact forms_close. Qed.
+(* ... and, when moreover |x0 - x1| <= dx in every layer, by at most e * (Md / Mw) dx * (p_first - p_last) / (2 g): second order *)
+Theorem iwv_forms_close_second_order : forall e dx vmr p T, length vmr = length p -> length T = length p ->
+  List.Forall (fun x => 0 <= x <= 1) vmr -> List.Forall (fun x => 0 < x) p -> decreasing p -> List.Forall (fun x => 0 < x) T ->
+  layer_all (fun x0 p0 T0 x1 p1 T1 => layer_contrast x0 p0 T0 x1 p1 T1 <= e /\ Rabs (x0 - x1) <= dx) vmr p T ->
+  Rabs (iwv_general vmr p T (moist_height vmr p T) - iwv_hydro vmr p) <=
+  e * (c_molar_mass_dry_air / c_molar_mass_water * dx) * ((hd 0 p - last p 0) / (2 * c_earth_standard_gravity)).
+Proof. exact forms_second_order. Qed.
+(* for profiles whose steps are controlled by the pressure step -- |x0 - x1| <= Lx (r - 1), |T0 - T1| <= LT (r - 1), T >= Tmin
+   (Lipschitz in ln p, or in p on a bounded range) -- on a grid with r - 1 <= d in every layer:
+   |general - hydrostatic| <= C d * hydrostatic  and  <= C d * (Md / Mw) Lx d * (p_first - p_last) / (2 g),
+   C = 1 + (Md / Mw - 1) Lx + LT / Tmin   (forms_constant).
+   The pressure step alone does NOT control the difference (Example pressure_step_alone_is_not_enough below). *)
+Theorem iwv_forms_close_under_refinement : forall Lx LT Tmin d vmr p T, 0 <= Lx -> 0 <= LT -> 0 < Tmin ->
+  length vmr = length p -> length T = length p ->
+  List.Forall (fun x => 0 <= x <= 1) vmr -> List.Forall (fun x => 0 < x) p -> decreasing p -> List.Forall (fun t => Tmin <= t) T ->
+  layer_all (smooth_layer Lx LT d) vmr p T ->
+  let D := iwv_general vmr p T (moist_height vmr p T) - iwv_hydro vmr p in
+  Rabs D <= forms_constant Lx LT Tmin * d * iwv_hydro vmr p /\
+  Rabs D <= forms_constant Lx LT Tmin * d * (c_molar_mass_dry_air / c_molar_mass_water * (Lx * d)) *
+            ((hd 0 p - last p 0) / (2 * c_earth_standard_gravity)).
+Proof. exact forms_close_refinement. Qed.
+(* the limit: profiles x(p), T(p) sampled on ANY sequence of decreasing grids below P whose largest pressure ratio tends
+   to 1 -- the two forms converge to the same value (their difference tends to 0) *)
+Theorem iwv_forms_converge : forall (fx fT : R -> R) (Lx LT Tmin P : R) (grid : nat -> list R),
+  0 <= Lx -> 0 <= LT -> 0 < Tmin -> 0 < P ->
+  (forall a b, 0 < b -> b <= a -> a <= P -> Rabs (fx a - fx b) <= Lx * (a / b - 1) /\ Rabs (fT a - fT b) <= LT * (a / b - 1)) ->
+  (forall a, 0 < a <= P -> 0 <= fx a <= 1 /\ Tmin <= fT a) ->
+  (forall n, decreasing (grid n) /\ List.Forall (fun a => 0 < a <= P) (grid n)) ->
+  (forall d, 0 < d -> exists N, forall n, (N <= n)%nat -> List.Forall (fun r => r - 1 <= d) (ratios (grid n))) ->
+  Un_cv (fun n => iwv_general (map fx (grid n)) (grid n) (map fT (grid n)) (moist_height (map fx (grid n)) (grid n) (map fT (grid n)))
+                  - iwv_hydro (map fx (grid n)) (grid n)) 0.
+Proof. exact forms_converge. Qed.
+
+(* non-vacuity: the three-level column of nonvacuous_column below with T = 290, 270, 240 K has contrast <= 0.9 and steps
+   |dx| <= 0.011 per layer, is smooth with Lx = 0.03, LT = 80, d = 0.75, Tmin = 200, and holds water *)
+Example nonvacuous_forms :
+  let vmr := [0.02; 0.01; 0.001] in let p := [100000; 70000; 40000] in let T := [290; 270; 240] in
+  length vmr = length p /\ length T = length p /\ List.Forall (fun x => 0 <= x <= 1) vmr /\ List.Forall (fun x => 0 < x) p /\
+  decreasing p /\ List.Forall (fun x => 0 < x) T /\ List.Forall (fun t => 200 <= t) T /\
+  layer_all (fun x0 p0 T0 x1 p1 T1 => layer_contrast x0 p0 T0 x1 p1 T1 <= 0.9 /\ Rabs (x0 - x1) <= 0.011) vmr p T /\
+  layer_all (smooth_layer 0.03 80 0.75) vmr p T /\
+  0 < iwv_hydro vmr p.
+Proof. exact nonvacuous_forms_witness. Qed.
+(* the smoothness hypotheses are needed: two levels 1 % apart in pressure, the lower warm and moist, the upper cold and dry;
+   the general form lies more than a quarter of the hydrostatic form below it *)
+Example pressure_step_alone_is_not_enough :
+  let vmr := [0.04; 0] in let p := [100000; 99000] in let T := [330; 180] in
+  List.Forall (fun r => r - 1 <= 0.0102) (ratios p) /\ 0 < iwv_hydro vmr p /\
+  iwv_general vmr p T (moist_height vmr p T) - iwv_hydro vmr p <= - (1 / 4) * iwv_hydro vmr p.
+Proof. exact pressure_step_alone_witness. Qed.
+(* non-vacuity of the limit theorem: grids of n + 2 levels from 1000 hPa with the constant ratio 1 + 1 / (n + 1)
+   (witness_grid), vmr and T linear in p *)
+Example nonvacuous_converge :
+  let fx := fun a => 0.02 * (a / 100000) in let fT := fun a => 200 + 90 * (a / 100000) in
+  (forall a b, 0 < b -> b <= a -> a <= 100000 -> Rabs (fx a - fx b) <= 0.02 * (a / b - 1) /\ Rabs (fT a - fT b) <= 90 * (a / b - 1)) /\
+  (forall a, 0 < a <= 100000 -> 0 <= fx a <= 1 /\ 200 <= fT a) /\
+  (forall n, decreasing (witness_grid n) /\ List.Forall (fun a => 0 < a <= 100000) (witness_grid n)) /\
+  (forall d, 0 < d -> exists N, forall n, (N <= n)%nat -> List.Forall (fun r => r - 1 <= d) (ratios (witness_grid n))) /\
+  (forall n, length (witness_grid n) = S (S n)).
+Proof. exact nonvacuous_converge_witness. Qed.
 
 (* ---- column_relative_humidity *)
 
@@ -133,6 +225,15 @@ Print Assumptions trapz_default_unit_spacing.
 Print Assumptions axis_lanes.
 Print Assumptions iwv_nonnegative.
 Print Assumptions iwv_general_nonnegative.
+Print Assumptions moist_height_is_pressure2height_at_virtual_temperature.
+Print Assumptions virtual_temperature_is_the_textbook_one.
+Print Assumptions vapour_density_is_q_times_moist_density.
+Print Assumptions iwv_forms_layer_identity.
+Print Assumptions iwv_layer_defect_bound.
+Print Assumptions iwv_forms_close.
+Print Assumptions iwv_forms_close_second_order.
+Print Assumptions iwv_forms_close_under_refinement.
+Print Assumptions iwv_forms_converge.
 Print Assumptions crh_saturated_is_one.
 Print Assumptions crh_linear_in_q.
 Print Assumptions p2h_starts_at_zero.
